@@ -1091,20 +1091,25 @@ async fn lane_bootstrap(mon: &Monitor, rng: &mut Rng, idx: u64) {
     };
     mon.count(&format!("bootstrap.scenarios.{cfg_name}"), 1);
     let big = 1_000_000u32;
-    let bc = BootstrapConfig {
-        cache_dir: dir.path().to_path_buf(),
-        max_peers: 100_000,
-        epsilon: 0.0,
-        // the join rate limiter is another property (C14): make it irrelevant here
-        rate_limit: JoinRateLimiterConfig {
-            max_joins_per_64_per_hour: big,
-            max_joins_per_48_per_hour: big,
-            max_joins_per_24_per_hour: big,
+    // the join rate limiter is another property (C14). In half of the scenarios it is out of the
+    // way; in the other half it is tight, so that joins are refused by it part-way through
+    // add_peer: such a join must consume no diversity slot ("an admission that fails part-way
+    // consumes none"), which shows as soon as a later candidate of the same subnet is refused by
+    // the diversity gate although the admitted peers leave room
+    let tight_limiter = rng.chance(0.5);
+    let rate_limit = if tight_limiter {
+        JoinRateLimiterConfig {
+            max_joins_per_64_per_hour: rng.urange(1, 3) as u32,
+            max_joins_per_48_per_hour: rng.urange(1, 6) as u32,
+            max_joins_per_24_per_hour: rng.urange(1, 4) as u32,
             max_global_joins_per_minute: big,
-            global_burst_size: big,
-        },
-        diversity: cfg.clone(),
+            global_burst_size: if rng.chance(0.5) { big } else { rng.urange(4, 40) as u32 },
+        }
+    } else {
+        JoinRateLimiterConfig { max_joins_per_64_per_hour: big, max_joins_per_48_per_hour: big, max_joins_per_24_per_hour: big, max_global_joins_per_minute: big, global_burst_size: big }
     };
+    mon.count(if tight_limiter { "bootstrap.scenarios.tight-join-limiter" } else { "bootstrap.scenarios.no-join-limiter" }, 1);
+    let bc = BootstrapConfig { cache_dir: dir.path().to_path_buf(), max_peers: 100_000, epsilon: 0.0, rate_limit, diversity: cfg.clone() };
     let mgr = match BootstrapManager::with_config(bc).await {
         Ok(m) => m,
         Err(e) => {
@@ -1148,6 +1153,11 @@ async fn lane_bootstrap(mon: &Monitor, rng: &mut Rng, idx: u64) {
                     mon.count("bootstrap.ops.add.refused-diversity", 1);
                     judge_decision(mon, "bootstrap", "add_peer", extra, &m, &cand, false, &hist);
                     hist.push(format!("add_peer {ip} -> refused (diversity)"));
+                } else if tight_limiter && msg.to_lowercase().contains("rate limit") {
+                    // refused by the join limiter: not admitted, the model keeps its counts
+                    mon.count("bootstrap.ops.add.refused-join-limiter", 1);
+                    mon.eval();
+                    hist.push(format!("add_peer {ip} -> refused (join limiter)"));
                 } else {
                     mon.count("skipped.bootstrap-other-error", 1);
                     hist.push(format!("add_peer {ip} -> Err {}", msg.chars().take(50).collect::<String>()));
@@ -1165,11 +1175,11 @@ fn main() {
     mon.assume("steps whose per-IP limit depends on floating-point rounding of size*fraction (within 1e-9 of an integer) are skipped and counted");
     mon.assume("network sizes up to 2^40; tracking stays far below the 50k-entry bound");
     mon.assume("lane (b): refusal reason is read from the error text; region (50/region) and bucket (8) refusals are legitimate Errs and only their effect on the diversity counters is judged");
-    mon.assume("lane (c): join rate limits are configured out of the way (1e6) so that only the diversity gate can refuse");
+    mon.assume("lane (c): in half of the scenarios the join rate limits are out of the way (1e6) so that only the diversity gate can refuse; in the other half they are tight and a join refused by them (read from the error text) must leave the diversity counters untouched");
 
-    let a_n = mon.by_tier(300u64, 8000);
-    let b_n = mon.by_tier(210u64, 6000);
-    let c_n = mon.by_tier(30u64, 300);
+    let a_n = mon.by_tier(1200u64, 8000);
+    let b_n = mon.by_tier(800u64, 6000);
+    let c_n = mon.by_tier(100u64, 300);
     vkit::run_shards(mon.shards(), mon.seed, |_i, mut rng| {
         let rt = checks::rt(false);
         let kinds = [EKind::Evict, EKind::Failure, EKind::BucketFull, EKind::RegionV4, EKind::RegionV6, EKind::DisplayAddr, EKind::Mixed];
